@@ -88,6 +88,8 @@ def analyze(run: Any) -> dict[str, list[str]]:  # noqa: C901
     recent_eff: dict[int, list] = {}  # T -> [(cycle, effective?)] short history
     starts: dict[int, dict] = {}  # child T -> info
     hist = run.history
+    # on a real clock (uvloop leg) time passes by itself; only the cycle count is meaningful there
+    realtime = bool(getattr(run, "realtime", False))
 
     def note_eff(T: int, cycle: int) -> bool:
         e = m.effective(m.task_scope.get(T))
@@ -114,7 +116,7 @@ def analyze(run: Any) -> dict[str, list[str]]:  # noqa: C901
             if b["cancelled_since"] is not None and not b["flagged"]:
                 # a live delivery keeps the loop spinning, so neither many cycles nor any amount
                 # of (virtual) time may pass while the task stays blocked
-                if cycle - b["cancelled_since"] > LATENCY or now > b["cancelled_time"]:
+                if cycle - b["cancelled_since"] > LATENCY or (now > b["cancelled_time"] and not realtime):
                     b["flagged"] = True
                     grp = m.tasks.get(T, {}).get("group")
                     if grp is not None and any(
